@@ -125,7 +125,7 @@ type c07Scenario struct {
 }
 
 func C07(run *hx.Run) {
-	run.Rule = "a real SQLite writer process (python sqlite3) is frozen by an LD_PRELOAD shim before EVERY file and lock operation of its transaction (journal writes/syncs, database writes, truncate/unlink, every fcntl lock request); at each frozen point the writer's actual lock state is read from /proc/locks and every read operation (Select, IndexedSelect, IndexedSelectEq, SelectRowid, PKSelect, Columns) runs on a fresh handle and on a long-lived handle: PENDING/EXCLUSIVE => every operation must fail with zero rows; otherwise every operation must succeed and equal what SQLite itself reads from another process at that moment (the last committed state). Configurations: journal modes DELETE/TRUNCATE/PERSIST, spilling and non-spilling transactions, stale PERSIST journal, page sizes, and a third process holding SHARED so the writer sits in PENDING without EXCLUSIVE. distinct = (scenario, frozen point, handle kind); non-trivial = all (each is a different point of the writer's protocol)"
+	run.Rule = "a real SQLite writer process (python sqlite3) is frozen by an LD_PRELOAD shim before EVERY file and lock operation of its transaction (journal writes/syncs, database writes, truncate/unlink, every fcntl lock request); at each frozen point the writer's actual lock state is read from /proc/locks and every read operation (Select, IndexedSelect, IndexedSelectEq, SelectRowid, PKSelect, Columns) runs on a fresh handle and on a long-lived handle: PENDING/EXCLUSIVE => every operation must fail with zero rows; otherwise every operation must succeed and equal what SQLite itself reads from another process at that moment (the last committed state). Free-running phase: the same writer kind commits and rolls back a stream of transactions at full speed while reader processes (one handle each, long-lived and periodically reopened) read at full speed; the database content is a pure function of the committed version, so every successful read is checked completely: exactly the state of ONE version (no torn snapshot), not older than the last COMMIT that had returned before the call, not newer than the last transaction started, never a row of a rolled-back transaction (bounds from counters in shared memory, not wall-clock). Configurations: journal modes DELETE/TRUNCATE/PERSIST, spilling and non-spilling transactions, stale PERSIST journal, page sizes, and a third process holding SHARED so the writer sits in PENDING without EXCLUSIVE. distinct = (scenario, frozen point, handle kind); non-trivial = all (each is a different point of the writer's protocol)"
 	run.Assumptions = append(stdAssumptions, "/proc/locks reports POSIX locks truthfully", "expected outcomes are derived from the observed lock state, never from the operation number")
 	scs := []c07Scenario{
 		{"delete", "spill-insert", 1024, false, false},
@@ -185,6 +185,11 @@ func C07(run *hx.Run) {
 		}(wi)
 	}
 	wg.Wait()
+	if run.Thorough() {
+		c07Stress(run, 2500, 8)
+	} else {
+		c07Stress(run, 150, 6)
+	}
 	for _, st := range []string{"RESERVED", "EXCLUSIVE", "PENDING", "SHARED", "UNLOCKED"} {
 		if run.Seen("writer_lock_state", st) == 0 {
 			run.Inconclusive("writer was never observed in state " + st)
